@@ -245,7 +245,8 @@ EMatchStep(r) ==
          m == loc[r].m
          am == CHOOSE a \in early[p] : TW!SameRemote(m, a) IN
      /\ Do(TW!EarlyMatchChecks(r, p, m, am), TW!EarlyMatch(r, p, m, am))
-     /\ Goto(r, "free2", [loc[r] EXCEPT !.old = am])
+     \* (the code releases the event first, then the anti-message)
+     /\ Goto(r, "free2", [loc[r] EXCEPT !.old = m, !.m = am])
   /\ UNCHANGED <<lpst, snap, crem, fneed, rseq>>
 Free2Step(r) ==
   /\ pc[r] = "free2"
